@@ -133,6 +133,7 @@ class Run:
         self.timeout = timeout
         self.tag = tag or ""
         self.env = env or {}
+        self.wrapper = None  # optional argv prefix (e.g. strace fault injection)
         self.result = None
         self.outcome = None  # ok | violation | inconclusive | crash | sanitizer
         self.stderr_tail = ""
@@ -143,7 +144,25 @@ class Run:
         d = dict(variant=self.variant, binary=self.binary[0], args=self.args, tag=self.tag)
         if getattr(self, "tsan_rule", None):
             d["tsan_rule"] = self.tsan_rule
+        if self.wrapper:
+            d["wrapper"] = self.wrapper
         return d
+
+
+_STRACE_OK = None
+
+
+def strace_inject_available():
+    """fault injection through strace needs ptrace; probe once, callers skip those runs (and say so) when it is not there"""
+    global _STRACE_OK
+    if _STRACE_OK is None:
+        try:
+            p = subprocess.run(["strace", "-f", "-qq", "-o", "/dev/null", "-e", "trace=read", "-e", "inject=read:error=EAGAIN:when=60000", "/bin/true"],
+                               capture_output=True, timeout=30)
+            _STRACE_OK = p.returncode == 0
+        except Exception:
+            _STRACE_OK = False
+    return _STRACE_OK
 
 
 ASAN_RE = re.compile(r"ERROR: AddressSanitizer: ([\w-]+)")
@@ -202,7 +221,8 @@ LIVE_LOCK = threading.Lock()
 def execute(run, binpath, tmp, idx):
     out = os.path.join(tmp, "res_%d_%d.json" % (idx, run.attempts))
     errf = os.path.join(tmp, "err_%d_%d.txt" % (idx, run.attempts))
-    argv = [binpath] + ["%s=%s" % kv for kv in run.args.items()] + ["out=" + out]
+    slog = os.path.join(tmp, "strace_%d_%d.log" % (idx, run.attempts))
+    argv = [slog if a == "@LOG@" else a for a in (run.wrapper or [])] + [binpath] + ["%s=%s" % kv for kv in run.args.items()] + ["out=" + out]
     env = dict(os.environ)
     env.update(SAN_ENV)
     env.update(run.env)
@@ -231,6 +251,17 @@ def execute(run, binpath, tmp, idx):
         LIVE.pop(p.pid, None)
     run.wall = time.time() - t0
     run.rc = rc
+    if run.wrapper and os.path.exists(slog):
+        # what the fault injection actually did: injected failures of reads on the timer descriptor / all reads seen
+        inj = tot = 0
+        with open(slog, "rb") as sf:
+            for line in sf:
+                if b" read(" in line:
+                    tot += 1
+                    if b"(INJECTED)" in line and b", 8)" in line:
+                        inj += 1
+        run.injected, run.traced = inj, tot
+        os.unlink(slog)
     if CANCEL.is_set() and rc in (-9, -signal.SIGKILL):
         run.outcome = "cancelled"
         return
@@ -439,6 +470,9 @@ def finish_check(prop, tier, seed, runs, t0, rule, min_events, assumptions, extr
                inconclusive_runs=len(inconclusive))
     if extra_cov:
         cov.update(extra_cov)
+    if any(getattr(r, "injected", None) is not None for r in runs):
+        cov["fault_injection_observed"] = dict(reads_traced=sum(getattr(r, "traced", 0) or 0 for r in runs),
+                                               eight_byte_timer_reads_failed_by_injection=sum(getattr(r, "injected", 0) or 0 for r in runs))
     ev = dict(property_id=prop, tier=tier, seed=int(seed), level="exploration", coverage=cov, assumptions=assumptions,
               wall_s=round(wall, 2), violations=len(unknown_viols))
     with open(os.path.join(evdir, prop + ".json"), "w") as f:
